@@ -748,6 +748,7 @@ func (c *ctxT) genCall(rnd *common.Rand, big int) call {
 }
 
 func pickS(r *common.Rand, l []string) string { return l[r.Intn(len(l))] }
+func pickInt(r *common.Rand, l []int) int     { return l[r.Intn(len(l))] }
 
 // ---- concurrent runs -----------------------------------------------------------------
 
@@ -1128,6 +1129,25 @@ func Run(r *common.Run) error {
 				}
 				continue
 			}
+			if len(f) == 15 && f[0] == "C05" && f[1] == "wfault" {
+				cl := call{entry: f[4], form: f[7]}
+				if f[5] != "-" {
+					if st, err := decToks(f[5]); err == nil && len(st) == 1 {
+						if s, ok := st[0].(xml.StartElement); ok {
+							cl.start = &s
+						}
+					}
+				}
+				ts, err := decToks(f[6])
+				at, _ := strconv.Atoi(f[9])
+				n, _ := strconv.Atoi(f[10])
+				if err == nil {
+					cl.toks = ts
+					c.wfault(mkCfg(f[2], f[3]), cl, at, n, f[11])
+					executed++
+				}
+				continue
+			}
 			if len(f) == 6 && f[0] == "C05" && f[1] == "reuse" {
 				c.reuse(mkCfg(f[2], f[3]), f[4], strings.Split(f[5], ","))
 				executed++
@@ -1217,6 +1237,10 @@ func Run(r *common.Run) error {
 	for _, cfg := range cfgs {
 		c.behindCorpus(cfg)
 	}
+	r.Mark("case one write of the transport answered with a fault")
+	for _, cfg := range cfgs {
+		c.wfaultCorpus(cfg)
+	}
 	r.Mark("case token writer handles used after Close")
 	c.reuseAll()
 	r.Exhaustive = append(r.Exhaustive, "every program of length <= 3 over {EncodeToken, Flush, Close} on a closed token writer handle x {no holder (without Close), a second handle idle, a second handle mid-element} x session configuration")
@@ -1261,6 +1285,31 @@ func Run(r *common.Run) error {
 		cl = noForeign(cfg, cl)
 		k := 1 + rnd.Intn(len(toks)-1)
 		c.behind(cfg, pickS(rnd, []string{"fail", "finish", "twfail", "encfail"}), rnd.Intn(k+1), k, toks, cl)
+	}
+	nW := r.Pick(200, 3000)
+	for i := 0; i < nW; i++ {
+		cfg := cfgs[rnd.Intn(len(cfgs))]
+		big := 0
+		if i%3 == 0 {
+			big = 3000 + rnd.Intn(20000) // several transport writes
+		}
+		var cl call
+		for {
+			cl = c.genCall(rnd, big)
+			if cl.entry == "reply" || cl.entry == "replyel" || cl.entry == "iq" || cl.form == "writerto" || foreignRawStanza(cfg, cl.denoted()) {
+				continue // handler replies are written by Serve; WriterTo values are not flushed by Encode (known finding)
+			}
+			break
+		}
+		at := 0
+		if big > 0 {
+			at = rnd.Intn(2 + big/4096)
+		}
+		n := pickInt(rnd, []int{0, 1, 2, 17, 100, 1000, 4095, 4096, 1 << 20})
+		if rnd.Chance(1, 2) {
+			n = rnd.Intn(300)
+		}
+		c.wfault(cfg, cl, at, n, pickS(rnd, wfaultKinds))
 	}
 	nConc := r.Pick(30, 300)
 	for i := 0; i < nConc; i++ {
